@@ -86,7 +86,7 @@ SED = (r's/\\cref{zzeq}/\\cref@equation@name \\nobreakspace \\textup {(\\ref {zz
        r's/\\cref@section@name /section/g' '\n')
 DEFS = ('\\gls@defglossaryentry{zzgl}{name={Glsname},text={glstext one},plural={glsplurals},description={descr\n                           words}}\n'
         '\\gls@defglossaryentry{zzgm}{name={Other},text={secondtext},plural={seconds},description={d}}\n')
-WORD_RE = re.compile(r'W[éäж]?[a-j]{3}q')
+WORD_RE = re.compile(r'W[éäж]?[a-j]{3}[qé]')
 CW_END = re.compile(r'\\[a-zA-Z@]+$')
 
 
@@ -190,7 +190,7 @@ class Model:
         k = self.wcount
         core = ''.join('abcdefghij'[int(d)] for d in '%03d' % (k % 1000))
         pre = {3: 'é', 5: 'ä', 6: 'ж'}.get(k % 7, '')
-        return 'W' + pre + core + 'q'
+        return 'W' + pre + core + ('é' if k % 7 == 2 else 'q')
 
     def cur(self):
         return self.stack[-1]
@@ -620,6 +620,8 @@ def render_item(m, it):
         m.emit('}')
         m.cur().append(('v', False))
         m.features.add('usermacro')
+    elif k in ('store', 'recall') and m.flags.get('no_definers'):
+        render_item(m, ('word',))
     elif k in ('store', 'recall') and m.in_head:
         m.excl('macro definition / recall inside a heading argument (argument is expanded twice, F1) -> word')
         render_item(m, ('word',))
